@@ -265,7 +265,7 @@ def run_one(ld, L, prog, law, qname, res):
                     'both_sides_iterate_to': it[0][:5]})
 
 
-LARGE_N = {'quick': ((255, 256, 257, 300, 1000), (65537, 70001)),
+LARGE_N = {'quick': ((127, 128, 129, 255, 256, 257, 300, 1000), (32769, 65537, 70001)),
            'thorough': ((127, 128, 129, 255, 256, 257, 300, 511, 1000, 4097),
                         (32769, 65535, 65536, 65537, 70001, 131073))}
 LARGE_BASES = {
